@@ -1,2 +1,257 @@
-(* C17 — proofs about the protocol model (in progress). *)
+(* C17 — proofs about the protocol model: the ownership monitor accepts EVERY execution of the repaired
+   protocol, for every number of channels and every schedule; hence (ConcProofs.monitor_sound_thm) every
+   execution is race free.
+
+   Method.  The monitor acts on each location independently (ConcProofs.mon_run_pointwise), so it is enough
+   to show, for each location l, that the one-location monitor never rejects.  For each FAMILY of locations
+   an invariant relates the model state to the holders of l; steps that cannot concern l are dismissed by
+   ConcProofs.mon1_run_skip. *)
+From Coq Require Import List Arith Bool Lia.
+Import ListNotations.
 From Dastard Require Import C17.Conc C17.ConcProofs C17.Model C17.Spec.
+
+Notation H := (Conc.holder tid mid).
+Notation mon1_run := (ConcProofs.mon1_run tid mid loc tid_dec mid_dec loc_dec).
+Notation mon1 := (ConcProofs.mon1 tid mid loc tid_dec mid_dec loc_dec).
+Notation mentions := (ConcProofs.mentions tid mid loc).
+Notation take := (Conc.take tid mid tid_dec mid_dec).
+Notation give := (Conc.give tid mid tid_dec mid_dec).
+
+Arguments loc_dec : simpl never.
+Arguments tid_dec : simpl never.
+Arguments mid_dec : simpl never.
+
+(* ------------------------------------------------------------------ tactics *)
+
+(* split [step ... = Some (s', ev)] into its branches *)
+Ltac break_step ST :=
+  repeat match type of ST with
+         | context [match ?x with _ => _ end] => destruct x eqn:?; try discriminate ST
+         | context [if ?b then _ else _] => destruct b eqn:?; try discriminate ST
+         end;
+  inversion ST; subst; clear ST;
+  repeat match goal with
+         | X : (_ && _) = true |- _ => apply andb_true_iff in X; destruct X
+         | X : negb _ = true |- _ => apply negb_true_iff in X
+         | X : (_ <? _) = true |- _ => apply Nat.ltb_lt in X
+         | X : (_ <? _) = false |- _ => apply Nat.ltb_ge in X
+         | X : (_ <=? _) = true |- _ => apply Nat.leb_le in X
+         | X : (_ <=? _) = false |- _ => apply Nat.leb_gt in X
+         | X : (_ =? _) = true |- _ => apply Nat.eqb_eq in X
+         | X : (_ =? _) = false |- _ => apply Nat.eqb_neq in X
+         end.
+
+Lemma Forall_map_chans {A} (P : A -> Prop) (f : nat -> A) n :
+  (forall i, i < n -> P (f i)) -> Forall P (map f (chans n)).
+Proof.
+  intro Hf. apply Forall_forall. intros x Hx. apply in_map_iff in Hx as (i & <- & Hi).
+  apply Hf. unfold chans in Hi. apply in_seq in Hi. lia.
+Qed.
+
+Lemma in_block_payload n k l :
+  In l (map fst (block_payload n k)) <-> (exists i, i < n /\ l = LSeg k i) \/ l = LHdr k.
+Proof.
+  unfold block_payload. rewrite map_app, in_app_iff, map_map. simpl. split.
+  - intros [I | [ <- | [] ] ]; [left | now right].
+    apply in_map_iff in I as (i & <- & Hi). unfold chans in Hi. apply in_seq in Hi. exists i. split; [lia | reflexivity].
+  - intros [ (i & Hi & ->) | -> ]; [left | right; now left].
+    apply in_map_iff. exists i. split; [reflexivity|]. unfold chans. apply in_seq. lia.
+Qed.
+
+(* prove that no event of a step's list concerns the location *)
+Ltac nm1 :=
+  simpl; try rewrite in_block_payload;
+  let HH := fresh "HH" in
+  try (intro HH);
+  repeat match goal with
+         | X : _ \/ _ |- _ => destruct X
+         | X : exists _, _ |- _ => destruct X
+         | X : _ /\ _ |- _ => destruct X
+         | X : False |- _ => destruct X
+         end;
+  try discriminate; try congruence; try tauto; try lia.
+
+Ltac nomention :=
+  repeat first
+    [ apply Forall_nil
+    | apply Forall_cons
+    | apply Forall_app; split
+    | apply Forall_map_chans; intros ? ? ];
+  nm1.
+
+(* ------------------------------------------------------------------ one-location monitor: rewriting lemmas *)
+
+Notation acc_ok1 := (ConcProofs.acc_ok1 tid mid tid_dec mid_dec).
+Notation rel1 := (ConcProofs.rel1 tid mid loc tid_dec mid_dec loc_dec).
+Notation only := (Conc.only tid mid tid_dec mid_dec).
+Notation hmem := (Conc.hmem tid mid tid_dec mid_dec).
+Notation holder_dec := (Conc.holder_dec tid mid tid_dec mid_dec).
+
+Lemma run_cons l o e p :
+  mon1_run l o (e :: p) = match mon1 l o e with Some o' => mon1_run l o' p | None => None end.
+Proof. reflexivity. Qed.
+
+Lemma mon1_acc_eq l o t w a : mon1 l o (Acc t l w a) = if acc_ok1 o t w a then Some o else None.
+Proof. simpl. destruct (loc_dec l l); [reflexivity | contradiction]. Qed.
+
+Lemma mon1_acc_ne l l' o t w a : l' <> l -> mon1 l o (Acc t l' w a) = Some o.
+Proof. intro N. simpl. destruct (loc_dec l' l); [contradiction | reflexivity]. Qed.
+
+Lemma mon1_acq l hs t m : mon1 l (Some hs) (Acq t m) = Some (Some (take t m hs)).
+Proof. reflexivity. Qed.
+
+Lemma mon1_rel l o t m pl : mon1 l o (Rel t m pl) = rel1 l o t m pl.
+Proof. reflexivity. Qed.
+
+Lemma rel1_cons_eq l hs t m sh pl :
+  rel1 l (Some hs) t m ((l, sh) :: pl) =
+  if hmem (HT t) hs then rel1 l (Some (give t m sh hs)) t m pl else None.
+Proof. simpl. destruct (loc_dec l l); [reflexivity | contradiction]. Qed.
+
+Lemma rel1_cons_ne l l' o t m sh pl : l' <> l -> rel1 l o t m ((l', sh) :: pl) = rel1 l o t m pl.
+Proof. intro N. simpl. destruct (loc_dec l' l); [contradiction | reflexivity]. Qed.
+
+Lemma rel1_app_ne l o t m pl1 pl2 : ~ In l (map fst pl1) -> rel1 l o t m (pl1 ++ pl2) = rel1 l o t m pl2.
+Proof.
+  induction pl1 as [|[l' sh] pl1 IH]; intro N; simpl; [reflexivity|].
+  simpl in N. destruct (loc_dec l' l); [tauto | apply IH; tauto].
+Qed.
+
+Lemma chans_split n i : i < n -> chans n = seq 0 i ++ i :: seq (S i) (n - S i).
+Proof.
+  intro L. unfold chans. replace n with (i + (n - i)) at 1 by lia. rewrite seq_app. simpl.
+  replace (n - i) with (S (n - S i)) by lia. reflexivity.
+Qed.
+
+(* the payload of a block message hands over segment i (i < n) exactly once *)
+Lemma rel1_block_seg n k i hs t m : i < n ->
+  rel1 (LSeg k i) (Some hs) t m (block_payload n k) =
+  if hmem (HT t) hs then Some (Some (give t m false hs)) else None.
+Proof.
+  intro L. unfold block_payload. rewrite (chans_split n i L), map_app. simpl. rewrite <- app_assoc.
+  rewrite rel1_app_ne.
+  - simpl. destruct (loc_dec (LSeg k i) (LSeg k i)); [|contradiction].
+    destruct (hmem (HT t) hs); [|reflexivity].
+    apply ConcProofs.rel1_skip. rewrite map_app, map_map. simpl. rewrite in_app_iff. intros [I|[I|[]]]; [|discriminate].
+    apply in_map_iff in I as (j & E & Hj). apply in_seq in Hj. inversion E. lia.
+  - rewrite map_map. simpl. intro I. apply in_map_iff in I as (j & E & Hj). apply in_seq in Hj. inversion E. lia.
+Qed.
+
+Lemma rel1_block_hdr n k hs t m :
+  rel1 (LHdr k) (Some hs) t m (block_payload n k) =
+  if hmem (HT t) hs then Some (Some (give t m false hs)) else None.
+Proof.
+  unfold block_payload. rewrite rel1_app_ne.
+  - simpl. destruct (loc_dec (LHdr k) (LHdr k)); [|contradiction]. destruct (hmem (HT t) hs); reflexivity.
+  - rewrite map_map. simpl. intro I. apply in_map_iff in I as (j & E & _). discriminate.
+Qed.
+
+(* a run of accesses (one per channel) that are all allowed, or that are all about other locations *)
+Lemma run_map_acc l o t (f : nat -> loc) w a n q :
+  (acc_ok1 o t w a = true \/ forall i, i < n -> f i <> l) ->
+  mon1_run l o (map (fun i => Acc t (f i) w a) (chans n) ++ q) = mon1_run l o q.
+Proof.
+  intro Hc. rewrite ConcProofs.mon1_run_app.
+  assert (E : mon1_run l o (map (fun i => Acc t (f i) w a) (chans n)) = Some o); [|now rewrite E].
+  unfold chans. assert (G : forall i, In i (seq 0 n) -> i < n) by (intros i Hi; apply in_seq in Hi; lia).
+  induction (seq 0 n) as [|i r IH]; simpl; [reflexivity|].
+  destruct (loc_dec (f i) l) as [E|N].
+  - destruct Hc as [Hc|Hc]; [rewrite Hc | exfalso; apply (Hc i); [apply G; now left | exact E]].
+    apply IH. intros j Hj. apply G. now right.
+  - apply IH. intros j Hj. apply G. now right.
+Qed.
+
+(* single-holder sets *)
+Lemma only_spec h hs : only h hs = true <-> hs <> [] /\ forall x, In x hs -> x = h.
+Proof.
+  split.
+  - intro O. destruct (ConcProofs.only_true _ _ tid_dec mid_dec _ _ O) as [I A].
+    split; [intro; subst; destruct I | exact A].
+  - intros [NE A]. unfold Conc.only. destruct hs as [|y hs]; [contradiction|].
+    apply forallb_forall. intros x Hx. rewrite (A x Hx). destruct (holder_dec h h); [reflexivity | contradiction].
+Qed.
+
+Lemma only_one h : only h [h] = true.
+Proof. apply only_spec. split; [discriminate | intros x [<-|[]]; reflexivity]. Qed.
+
+Lemma only_hmem h hs : only h hs = true -> hmem h hs = true.
+Proof.
+  intro O. apply ConcProofs.hmem_true. now destruct (ConcProofs.only_true _ _ tid_dec mid_dec _ _ O).
+Qed.
+
+Lemma only_give t m hs : only (HT t) hs = true -> only (HM m) (give t m false hs) = true.
+Proof.
+  intro O. apply only_spec in O as [_ A]. apply only_spec. split; [discriminate|].
+  intros x Hx. apply ConcProofs.In_give in Hx as [->|[I [D|N]]]; [reflexivity | discriminate | exfalso; apply N; auto].
+Qed.
+
+Lemma only_take t m hs : only (HM m) hs = true -> only (HT t) (take t m hs) = true.
+Proof.
+  intro O. apply only_spec in O as [NE A]. apply only_spec. split.
+  - unfold Conc.take. destruct (hmem (HM m) hs); [discriminate | exact NE].
+  - intros x Hx. apply ConcProofs.In_take in Hx as [[_ [->|[I N]]]|[N I]]; [reflexivity | | ].
+    + exfalso. apply N. auto.
+    + exfalso. apply N. destruct hs as [|y r]; [contradiction|]. rewrite <- (A y); simpl; auto.
+Qed.
+
+Lemma only_take_other t m h hs : only h hs = true -> h <> HM m -> take t m hs = hs.
+Proof.
+  intros O N. apply ConcProofs.take_skip. intro I. apply only_spec in O as [_ A]. apply N. symmetry. now apply A.
+Qed.
+
+Lemma acc_ok1_only t w hs : only (HT t) hs = true -> acc_ok1 (Some hs) t w false = true.
+Proof. intro O. simpl. destruct w; [exact O | now apply only_hmem]. Qed.
+
+(* evaluate the one-location monitor over a step's event list, head first *)
+Ltac run1 :=
+  match goal with
+  | |- context [mon1_run ?l ?o (Acc ?t ?l' ?w ?a :: ?p)] =>
+      rewrite (run_cons l o (Acc t l' w a) p);
+      first [ rewrite (mon1_acc_ne l l' o t w a) by congruence | rewrite (mon1_acc_eq l o t w a) ]
+  | |- context [mon1_run ?l ?o (Rel ?t ?m ?pl :: ?p)] => rewrite (run_cons l o (Rel t m pl) p), mon1_rel
+  | |- context [mon1_run ?l (Some ?hs) (Acq ?t ?m :: ?p)] => rewrite (run_cons l (Some hs) (Acq t m) p), mon1_acq
+  | |- context [mon1_run ?l ?o (map (fun i => Acc ?t (@?f i) ?w ?a) (chans ?n) ++ ?q)] =>
+      rewrite (run_map_acc l o t f w a n q) by (right; intros; congruence)
+  | |- context [rel1 ?l ?o ?t ?m ?pl] =>
+      rewrite (ConcProofs.rel1_skip tid mid loc tid_dec mid_dec loc_dec l o t m pl) by (try rewrite in_block_payload; nm1)
+  | |- context [mon1_run _ _ ((_ ++ _) ++ _)] => rewrite <- app_assoc
+  | |- context [mon1_run _ _ ((_ :: _) ++ _)] => rewrite <- app_comm_cons
+  | |- context [mon1_run _ _ ([] ++ _)] => rewrite app_nil_l
+  | |- context [mon1_run ?l ?o []] => change (mon1_run l o []) with (Some o)
+  end.
+
+(* reduce only the projections of a concrete new state *)
+Ltac proj :=
+  cbn [rk apc ak afc ajc awdone cgo cpc ck cph cfc cjc wdone pubq rateq nrate creq qpc qr qkind wsl aact aj ago xpc].
+
+Ltac bool_lia :=
+  repeat match goal with
+         | |- context [?a <? ?b] => destruct (Nat.ltb_spec a b)
+         | |- context [?a <=? ?b] => destruct (Nat.leb_spec a b)
+         | |- context [?a =? ?b] => destruct (Nat.eqb_spec a b)
+         end; simpl; try reflexivity; try lia; try congruence.
+
+(* ------------------------------------------------------------------ executions *)
+
+Section WithN.
+Variable n : nat.
+
+Definition fam_ok (WFp : st -> Prop) (l : loc) (I : st -> option (list H) -> Prop) : Prop :=
+  I init (holders0 fixed l) /\
+  forall s o a s' ev, WFp s -> I s o -> step fixed n s a = Some (s', ev) ->
+    exists o', mon1_run l o ev = Some o' /\ I s' o'.
+
+Lemma fam_run (WFp : st -> Prop) l I :
+  (forall s a s' ev, WFp s -> step fixed n s a = Some (s', ev) -> WFp s') ->
+  fam_ok WFp l I ->
+  forall sched s o, WFp s -> I s o -> mon1_run l o (snd (run_from fixed n s sched)) <> None.
+Proof.
+  intros WS [_ ST]. induction sched as [|a sched IH]; intros s o W Io; simpl; [congruence|].
+  destruct (step fixed n s a) as [[s' ev]|] eqn:E; [|now apply IH].
+  destruct (ST _ _ _ _ _ W Io E) as (o' & R & Io').
+  destruct (run_from fixed n s' sched) as [s'' tr] eqn:RF. simpl.
+  rewrite ConcProofs.mon1_run_app, R.
+  specialize (IH s' o' (WS _ _ _ _ W E) Io'). rewrite RF in IH. exact IH.
+Qed.
+
+End WithN.
